@@ -83,8 +83,48 @@ fn gcseq(nv: u32, steps: usize, seeds: u64) {
     println!("OK {seeds} operation sequences of {steps} steps over {nv} variables with interleaved gc agree with explicit sets");
 }
 
+/// canon <nvars> <trials>: canonicity / gc / iteration probes — the same family built in different orders (and again after a
+/// collection) must give the same handle; iteration must yield each member once, elements ascending; gc must keep the families.
+fn canon(nv: u32, trials: u64) {
+    for seed in 1..=trials {
+        let r = std::panic::catch_unwind(|| {
+            let mut x: u64 = seed.wrapping_mul(0x9E3779B97F4A7C15) | 1;
+            let mut rnd = move |m: u64| { x ^= x << 13; x ^= x >> 7; x ^= x << 17; x % m };
+            let mut sets: Vec<Vec<u32>> = vec![];
+            for _ in 0..(1 + rnd(5)) { let mut s = vec![]; for v in 0..nv { if rnd(2) == 1 { s.push(v); } } sets.push(s); }
+            let want: Fam = sets.iter().map(|s| s.iter().cloned().collect()).collect();
+            let mut ar = ZddArena::new();
+            let build = |ar: &mut ZddArena, order: &Vec<Vec<u32>>, shuffle: bool| { let mut h = ar.empty(); for s in order { let mut e = s.clone(); if shuffle { e.reverse(); } let x = ar.from_set(&e); h = ar.union(h, x); } h };
+            let h1 = build(&mut ar, &sets, false);
+            let mut rev = sets.clone(); rev.reverse();
+            let h2 = build(&mut ar, &rev, true);
+            if h1 != h2 { return Some(format!("seed {seed}: family {:?} built in two orders gives different roots", want)); }
+            // a second family sharing structure, collection keeping a subset of the handles
+            let extra = ar.product_with_optional(h1, rnd(nv as u64) as u32);
+            let keep = if rnd(2) == 0 { vec![h1] } else { vec![h1, extra] };
+            let (_, nh) = ar.gc(&keep);
+            let g1 = nh[0];
+            let (f1, ok1) = to_fam(ar.iter(g1).collect());
+            if f1 != want || !ok1 { return Some(format!("seed {seed}: after gc the handle iterates {:?} (sorted-distinct={ok1}), expected {:?}", f1, want)); }
+            let h3 = build(&mut ar, &sets, false);
+            if h3 != g1 { return Some(format!("seed {seed}: rebuilding {:?} after gc gives a root different from the one gc kept (canonicity lost)", want)); }
+            let z = { let mut z = Zdd::empty(); for s in &sets { z = z.union(&Zdd::from_set(s)); } z };
+            let (fz, okz) = to_fam(z.iter().collect());
+            if fz != want || !okz { return Some(format!("seed {seed}: standalone iteration gives {:?} (sorted-distinct={okz}), expected {:?}", fz, want)); }
+            None
+        });
+        match r {
+            Err(_) => { println!("REPRODUCED canonicity/gc/iteration probe panicked (seed {seed})"); std::process::exit(1); }
+            Ok(Some(m)) => { println!("REPRODUCED {m}"); std::process::exit(1); }
+            Ok(None) => {}
+        }
+    }
+    println!("OK {trials} canonicity/gc/iteration probes over {nv} variables");
+}
+
 fn main() {
     let a: Vec<String> = std::env::args().collect();
+    if a[1] == "canon" { canon(a[2].parse().unwrap(), a[3].parse().unwrap()); return; }
     if a[1] == "gcseq" { gcseq(a[2].parse().unwrap(), a[3].parse().unwrap(), a[4].parse().unwrap()); return; }
     let (api, op) = (a[1].as_str(), a[2].as_str());
     let fa = parse(&a[3]); let fb = parse(&a[4]);
